@@ -129,10 +129,10 @@ def fold_minimax(g, static, mate, key, d, memo):
     return v
 
 
-def exact_batch(ctx, depth, roots, sequences, seq_len, max_extra, label, threads=4):
+def exact_batch(ctx, depth, roots, sequences, seq_len, max_extra, label, threads=4, family=None):
     out = ctx.path("exact_%s.ndjson" % label)
     summ = harness(["search-exact", out, "--seed", ctx.seed + depth, "--roots", roots, "--depth", depth, "--max-extra", max_extra,
-                    "--sequences", sequences, "--seq-len", seq_len, "--threads", threads], timeout=7200)
+                    "--sequences", sequences, "--seq-len", seq_len, "--threads", threads] + (["--family", family] if family else []), timeout=7200)
     searches = read_ndjson(out)
     # distinct roots -> seeds of the graph
     keys = {}
@@ -193,7 +193,9 @@ def exact_batch(ctx, depth, roots, sequences, seq_len, max_extra, label, threads
         s = searches[0]
         ctx.sample({"binding": "B1 graph fold", "fen": fenlib.fen(s["root"]), "depth": depth, "engine": {"move": s["res"].get("m"), "score": s["score"]},
                     "minimax": fold_minimax(g, static, mate, tuple(fenlib.poskey(s["root"])), depth, memo) if tuple(fenlib.poskey(s["root"])) in g.nodes else None})
-    log("C08: %s: %d searches at depth %d compared with minimax over %d graph states: %d differ" % (label, len(searches), depth, g.records, bad))
+    terminal = sum(1 for n in g.nodes.values() if n["n"] == 0)
+    ctx.extra["terminal_nodes_in_graphs"] = ctx.extra.get("terminal_nodes_in_graphs", 0) + terminal
+    log("C08: %s: %d searches at depth %d compared with minimax over %d graph states (%d mate/stalemate nodes): %d differ" % (label, len(searches), depth, g.records, terminal, bad))
     return bad
 
 
@@ -201,12 +203,17 @@ def c08(ctx):
     quick = ctx.tier == "quick"
     mc_search(ctx)
     if quick:
-        exact_batch(ctx, 3, 50, 10, 4, 4, "d3")
-        exact_batch(ctx, 4, 16, 5, 3, 3, "d4")
+        plan = [(3, 40, 8, 4, 4, "d3", None), (4, 10, 4, 3, 3, "d4", None),
+                # lone king against a few men: stalemates and mates within the horizon (leaf verdict scoring)
+                (2, 40, 6, 3, 2, "bare2", "bare"), (3, 30, 6, 3, 2, "bare3", "bare"),
+                # roots built backwards from stalemates / mates: the terminal position sits exactly on the horizon
+                (1, 60, 0, 0, 2, "term1", "terminal"), (2, 60, 0, 0, 2, "term2", "terminal"), (3, 20, 0, 0, 2, "term3", "terminal")]
     else:
-        exact_batch(ctx, 3, 150, 30, 5, 5, "d3")
-        exact_batch(ctx, 4, 80, 20, 4, 4, "d4")
-        exact_batch(ctx, 2, 60, 20, 6, 12, "d2mid")
+        plan = [(3, 150, 30, 5, 5, "d3", None), (4, 80, 20, 4, 4, "d4", None), (2, 60, 20, 6, 12, "d2mid", None),
+                (1, 300, 0, 0, 2, "bare1", "bare"), (2, 300, 40, 4, 3, "bare2", "bare"), (3, 200, 40, 4, 3, "bare3", "bare"), (4, 60, 10, 3, 2, "bare4", "bare"),
+                (1, 400, 0, 0, 2, "term1", "terminal"), (2, 400, 0, 0, 2, "term2", "terminal"), (3, 300, 0, 0, 2, "term3", "terminal"), (4, 100, 0, 0, 2, "term4", "terminal")]
+    with ThreadPoolExecutor(max_workers=3) as ex:
+        list(ex.map(lambda a: exact_batch(ctx, a[0], a[1], a[2], a[3], a[4], a[5], family=a[6]), plan))
     ctx.rule = ("roots: seeded random sparse positions (two kings + 1-5 men), half-move clock 0; search with a brand-new context, and sequences of successive searches of a game sharing ONE context "
                 "(engine move, a reply, search again); reference: exact minimax folded bottom-up over the TLC state graph of each root (Oracle_Graph: nodes, legal edges, mate/stalemate verdicts) with the engine's own "
                 "static evaluation at the leaves and its mate scores by remaining depth read black-box; compared: last_score = root value and value of the returned move's child = root value (any optimal move accepted). "
